@@ -810,7 +810,7 @@ func genModel(t *rapid.T, o modelOpts) map[string]any {
 						ip["driver"] = "default"
 					}
 					var cfg []any
-					for k := 0; k < g.intn("pools", 1, 2); k++ {
+					for k := 0; k < g.intn("pools", 1, 5); k++ {
 						p := map[string]any{"subnet": fmt.Sprintf("172.%d.%d.0/24", 20+i, k)}
 						if g.coin("gw", 1, 2) {
 							p["gateway"] = fmt.Sprintf("172.%d.%d.1", 20+i, k)
